@@ -337,12 +337,19 @@ class Interp:
             return
         # store through a pointer: type-based invalidation
         lf = last_field(lv)
+        addr_loads = {t[1] for t in subterms(lv) if isinstance(t, tuple) and t and t[0] == 'load'}
         for k in list(st.mem):
             if k == lv:
                 continue
             kr = root_of(k)
             if kr[0] == 'local':
                 continue
+            if k in addr_loads:
+                continue      # the location a pointer was loaded from is not the location it points to
+            if self.distinct_captures(lv, k):
+                continue      # two different captures of one closure are distinct borrows
+            if k[0] == 'fld' and k[2].startswith('closure:') and lv[0] == 'deref':
+                continue      # a store through a captured reference does not rewrite the closure environment itself
             if lv_prefix(lv, k) or lv_prefix(k, lv):
                 del st.mem[k]
                 continue
@@ -352,6 +359,16 @@ class Interp:
         st.mem[lv] = val
         self.new_epoch(st)
         st.mem[lv] = val
+
+    @staticmethod
+    def distinct_captures(a, b):
+        def cap(lv):
+            # *(load (env).closure:X.upvarK)
+            if lv[0] == 'deref' and lv[1][0] == 'load' and lv[1][1][0] == 'fld' and lv[1][1][2].startswith('closure:'):
+                return lv[1][1][1], lv[1][1][2]
+            return None
+        ca, cb = cap(a), cap(root_of(b) if b[0] != 'deref' else b)
+        return ca is not None and cb is not None and ca[0] == cb[0] and ca[1] != cb[1]
 
     # ------------------------------------------------------------------ operands / rvalues
     def const(self, st, fid, o):
@@ -803,6 +820,7 @@ class Interp:
                 edge[(bi, t['t'])] = cur
             elif k == 'assert':
                 c = self.op(cur, fid, t['cond'])
+                self.event('assert', cur, fid, bi, t.get('span'), val=c, extra={'expected': t['expected'], 'msg': t.get('msg')})
                 fs = self.truth(cur, c, bool(t['expected']))
                 if ('false',) not in fs:
                     cur.facts |= fs
@@ -960,8 +978,11 @@ class Interp:
         if h is not None:
             r = h(self, st, fid, bi, args, c, t)
             if r is not None:
+                if r == ('never',) and c.get('diverges'):
+                    self.event('diverge', st, fid, bi, t.get('span'), callee=target, args=args, extra={'exp': t.get('exp')})
                 return r
         if c.get('diverges'):
+            self.event('diverge', st, fid, bi, t.get('span'), callee=target, args=args, extra={'exp': t.get('exp')})
             return ('never',)
         # unknown call: havoc memory reachable through pointers, and locals passed by &mut
         self.havoc_args(st, args)
